@@ -59,6 +59,7 @@ const Prelude = `(set-option :produce-models true)
 (define-fun zarr () (Array Int Int) ((as const (Array Int Int)) 0))
 (define-fun bnormdef ((b Bytes)) Bool (and (>= (blen b) 0) (forall ((i Int)) (! (=> (or (< i 0) (>= i (blen b))) (= (select (barr b) i) 0)) :pattern ((select (barr b) i))))))
 (define-fun bapp ((b Bytes) (x Int)) Bytes (mkb (+ (blen b) 1) (store (barr b) (blen b) x)))
+(define-fun arrnorm ((a (Array Int Int)) (n Int)) Bool (forall ((i Int)) (! (=> (or (< i 0) (>= i n)) (= (select a i) 0)) :pattern ((select a i)))))
 (declare-fun errstr (Any) String)
 (declare-fun key48 ((Array Int Int) Int Int) (Array Int Int))
 (assert (forall ((r (Array Int Int)) (o Int) (n Int) (i Int)) (! (= (select (key48 r o n) i) (ite (and (<= 0 i) (< i 48) (< i n)) (select r (+ o i)) 0)) :pattern ((select (key48 r o n) i)))))
